@@ -193,9 +193,9 @@ theorem propsFold_tv (f : C → Nat → Nat → C) (hf : ∀ c id v, sameTV(f c 
     · simp only []
       split
       · split
-        · have := ih (({ c.setPanic "core.rs:send_stored:publish_send_count+=1" with s := { (c.setPanic "core.rs:send_stored:publish_send_count+=1").s with sendCount := ((c.setPanic "core.rs:send_stored:publish_send_count+=1").s.sendCount + 1) % 65536 } } : C).push (.send p none))
+        · have := ih (({ c.setPanic "core.rs:send_stored:publish_send_count+=1" with s := { (c.setPanic "core.rs:send_stored:publish_send_count+=1").s with sendCount := ((c.setPanic "core.rs:send_stored:publish_send_count+=1").s.sendCount + 1) % 4294967296 } } : C).push (.send p none))
           simp_all
-        · have := ih (({ c with s := { c.s with sendCount := (c.s.sendCount + 1) % 65536 } } : C).push (.send p none))
+        · have := ih (({ c with s := { c.s with sendCount := (c.s.sendCount + 1) % 4294967296 } } : C).push (.send p none))
           simp_all
       · have := ih (c.push (.send p none)); simp_all
 
@@ -473,7 +473,7 @@ theorem psV5Auth_inv {a P c} (h : Inv a P c) (p : Pkt) : Inv a P (psV5Auth c p) 
 
 theorem psV5PublishTail_inv {a P c} (h : Inv a P c) (p : Pkt) (rel : Option Nat) :
     Inv a P (psV5PublishTail c p rel) := by
-  by_cases h1 : p.qos > 0 ∧ c.s.sendMax.isSome = true <;> by_cases h2 : c.s.sendCount ≥ 65535 <;>
+  by_cases h1 : p.qos > 0 ∧ c.s.sendMax.isSome = true <;> by_cases h2 : c.s.sendCount ≥ 4294967295 <;>
     simp only [psV5PublishTail, h1, h2, if_true, if_false] <;> inv_cases h
 
 theorem psV5PublishAlias_inv {a P c} (h : Inv a P c) (p : Pkt) (rel : Option Nat) (v : Bool) :
